@@ -149,6 +149,25 @@ Theorem C10_distributed_count_equals_central :
 Proof. exact DistTree.distributed_count_equals_central. Qed.
 Print Assumptions C10_distributed_count_equals_central.
 
+(* Whole plans: Trees.jref is a congruence for "same labelled samples" (DistEquiv.jsim_requiv: joins,
+   per-sample operators, aggregations, topk, coalesce, remote execution and step-invariant wrappers
+   map permuted operand values to permuted results and fail together), so a plan in which, anywhere,
+   per-series expressions and sum/max/min aggregations over the union of the partitions are replaced
+   by their distributed forms (DistEquiv.jsim) returns, step by step, the labelled samples of the
+   central plan. *)
+From Verif Require DistEquiv.
+Theorem C10_distributed_plan_equals_central :
+  forall cf w t t' ts, (0 < Compose.c_shards cf)%nat -> (0 < Compose.c_batch cf)%nat -> (0 <= Compose.c_lookback cf)%Z ->
+  Base.wf_window w -> (Bin.noT < Base.w_start w)%Z ->
+  DistEquiv.jsim t t' -> Trees.jok t -> Trees.jok t' -> In ts (Grid.grid w) ->
+  exists outs outs',
+    Trees.jrun cf w t = inl outs /\ Trees.jrun cf w t' = inl outs' /\
+    forall R, Trees.jref (Compose.c_lookback cf) t ts = Some R ->
+      Permutation (Bin.labelled Z (Trees.jseries t) (DistTree.step_of outs ts))
+                  (Bin.labelled Z (Trees.jseries t') (DistTree.step_of outs' ts)).
+Proof. exact DistEquiv.distributed_plan_equals_central. Qed.
+Print Assumptions C10_distributed_plan_equals_central.
+
 (* non-vacuity: sum by (b) (foo) with foo's three series on two engines, two steps *)
 Example C10_distributed_example :
   let l1 := [[(0, 10); (1, 20); (2, 31)]; [(0, 10); (1, 22); (2, 32)]]%N in
@@ -163,10 +182,10 @@ Example C10_distributed_example :
 Proof. cbv zeta. split; vm_compute; reflexivity. Qed.
 
 (* PARTIAL. Proved: the shape of what is sent to the partitions, the algebra of the
-   distributive reductions for every partitioning, and end to end - through the
-   remote execution's read-back and the coalesce operator - per-series expressions
-   sum/max/min and count aggregations of them over two engines. Not proved end to end:
-   group, topk/bottomk (C10_topk_pushdown: sound for tie-free data), count and plain
-   expressions over more than two engines, and expressions whose distributed form mixes pushed and
-   unpushed parts. Those are decided by the dist oracle and the distributed tree
-   correspondence of the check. *)
+   distributive reductions for every partitioning, and end to end - through the remote
+   execution's read-back and the coalesce operator - per-series expressions and sum/max/min
+   aggregations of them over any number of engines, count over two, and whole plans built
+   from these by the other operators (C10_distributed_plan_equals_central). Not proved end
+   to end: the pushdown of group and topk/bottomk themselves (C10_topk_pushdown: sound for
+   tie-free data) and of count over more than two engines. Those are decided by the dist
+   oracle and the distributed tree correspondence of the check. *)
